@@ -203,3 +203,36 @@ Proof.
   cbn [history]. pose proof (Dec_step st r H) as H1. destruct (step st r) as [u st']. cbn [snd] in H1.
   constructor; [exact H1|apply IH; exact H1].
 Qed.
+
+(* ---------- statements about single URIs of the loop ---------- *)
+
+Lemma effs_length : forall coll st dls, length (effs coll dls st) = length st.
+Proof. intros coll. induction st as [|s st IH]; intros dls; cbn [effs length]; [reflexivity|]. rewrite IH. reflexivity. Qed.
+
+Lemma effs_nth_inv : forall coll st dls j e, nth_error (effs coll dls st) j = Some e ->
+  exists s, nth_error st j = Some s /\ e = effective coll (nth j dls None) s.
+Proof.
+  intros coll st dls j e H.
+  destruct (nth_error st j) as [s|] eqn:En.
+  - exists s. split; [reflexivity|]. rewrite (effs_nth coll st dls j s En) in H. inversion H. reflexivity.
+  - exfalso. apply nth_error_None in En. assert (nth_error (effs coll dls st) j <> None) by congruence.
+    apply nth_error_Some in H0. rewrite effs_length in H0. lia.
+Qed.
+
+Lemma process_tal_nth : forall coll st dls j s, nth_error st j = Some s ->
+  exists s', nth_error (snd (process_tal coll dls st)) j = Some s' /\ entry_step coll (nth j dls None) s s'.
+Proof.
+  intros coll. induction st as [|s0 st IH]; intros dls j s H; [destruct j; discriminate|].
+  cbn [process_tal].
+  pose proof (load_ta_store coll (hd None dls) s0) as Hl.
+  destruct (load_ta coll (hd None dls) s0) as [cert s'] eqn:E. cbn [snd] in Hl.
+  specialize (IH (tl dls)). destruct (process_tal coll (tl dls) st) as [u st''] eqn:E2. cbn [snd] in IH.
+  assert (Hhd : nth 0 dls None = hd None dls) by (destruct dls; reflexivity).
+  assert (Htl : forall k, nth (S k) dls None = nth k (tl dls) None) by (intros k; destruct dls; [destruct k|]; reflexivity).
+  destruct j as [|j]; cbn [nth_error] in H.
+  - inversion H; subst s0. exists s'. rewrite Hhd. split; [|exact Hl].
+    destruct cert as [c|]; [destruct (usable c)|]; reflexivity.
+  - destruct (IH j s H) as [s'' [Hn Hs]]. rewrite Htl.
+    destruct cert as [c|]; [destruct (usable c)|]; cbn [snd nth_error]; eauto.
+    exists s. split; [exact H|left; reflexivity].
+Qed.
